@@ -605,6 +605,38 @@ struct VecSession final : Session {
                     return line();
                 } else { return ""; }
             }
+            // the sized / fill / range constructors: `t.~T(); new (&t) T(...)`
+            if (op == "ctor_n") {
+                auto n = static_cast<std::size_t>(l.i("n"));
+                { Window w; a.~T(); new (obj[t].buf) T(n); }
+                A     = AObj{};
+                A.vec = std::vector<int>(n, 0);
+                return line();
+            }
+            if (op == "ctor_nv") {
+                if constexpr (copyable) {
+                    E x(v());
+                    auto n = static_cast<std::size_t>(l.i("n"));
+                    { Window w; a.~T(); new (obj[t].buf) T(n, std::as_const(x)); }
+                    A     = AObj{};
+                    A.vec = std::vector<int>(n, v());
+                    return line();
+                } else { return ""; }
+            }
+            if (op == "ctor_r") {
+                if constexpr (copyable) {
+                    std::vector<int> vals;
+                    for (auto x : l.list("xs")) vals.push_back(static_cast<int>(x));
+                    std::vector<E> xs;
+                    xs.reserve(vals.size() + 1);
+                    for (auto x : vals) xs.emplace_back(x);
+                    E const* f = xs.data();
+                    { Window w; a.~T(); new (obj[t].buf) T(f, f + xs.size()); }
+                    A     = AObj{};
+                    A.vec = vals;
+                    return line();
+                } else { return ""; }
+            }
             if (op == "erase_if") {
                 int const md = static_cast<int>(l.i("md"));
                 int const r  = static_cast<int>(l.i("r"));
@@ -666,6 +698,22 @@ struct VecSession final : Session {
                 }
                 A = AObj{};
                 return line();
+            }
+            // `replace(container_type&&)` with a local container filled by the caller (sorted, unique: the precondition)
+            if (op == "replace") {
+                if constexpr (copyable) {
+                    std::vector<int> vals;
+                    for (auto x : l.list("xs")) vals.push_back(static_cast<int>(x));
+                    {
+                        Window w;
+                        SV c;
+                        for (auto x : vals) c.emplace_back(x);
+                        a.replace(std::move(c));
+                    }
+                    A     = AObj{};
+                    A.vec = vals;
+                    return line();
+                } else { return ""; }
             }
         }
         return "";
@@ -801,13 +849,23 @@ struct AltSession final : Session {
         A.v     = v;
     }
 
-    // emplace<J>(how): how 0 = from int, 1 = from T const&, 2 = from T&&
+    // emplace<J>(how): how 0 = from int, 1 = from T const&, 2 = from T&&; variant only: 3 = `v = T const&`, 4 = `v = T&&`
     template <int J, typename EJ>
     bool emplace_j(T& a, int how, int v)
     {
         if constexpr (O == Own::var) {
             if (how == 0) { Window w; a.template emplace<J>(v); return true; }
             if (how == 1) {
+                if constexpr (copyable) { EJ x(v); { Window w; a.template emplace<J>(std::as_const(x)); } return true; }
+                else { return false; }
+            }
+            if (how == 2) {
+                EJ x(v);
+                { Window w; a.template emplace<J>(std::move(x)); }
+                return true;
+            }
+            // converting assignment `variant = T const&` (3) / `variant = T&&` (4)
+            if (how == 3) {
                 if constexpr (copyable) { EJ x(v); { Window w; a = std::as_const(x); } return true; }
                 else { return false; }
             }
@@ -847,8 +905,9 @@ struct AltSession final : Session {
         auto& B     = abs[o];
         auto const& op = l.op;
 
-        if (op == "vemplace" || op == "vemplace_c" || op == "vemplace_m") {
-            int const how = op == "vemplace" ? 0 : (op == "vemplace_c" ? 1 : 2);
+        bool const conv = O == Own::var && (op == "vassign_c" || op == "vassign_m");
+        if (op == "vemplace" || op == "vemplace_c" || op == "vemplace_m" || conv) {
+            int const how = op == "vemplace" ? 0 : (op == "vemplace_c" ? 1 : (op == "vemplace_m" ? 2 : (op == "vassign_c" ? 3 : 4)));
             int const j   = static_cast<int>(l.i("j"));
             int const v   = static_cast<int>(l.i("v"));
             bool ok       = false;
@@ -1073,6 +1132,24 @@ struct FnSession final : Session {
             else *obj[t] = std::as_const(x);
         }
     }
+    // construction / assignment from a local function object of a smaller capacity (the converting constructors)
+    template <typename FJ>
+    void from_other_capacity(int t, bool asg, bool mv, int v)
+    {
+        using Small = etl::inplace_function<int(), 8>;
+        static_assert(!std::is_same_v<Small, T> && sizeof(FJ) <= 8);
+        FJ x(v);
+        Window w;
+        Small src(std::as_const(x));
+        if (asg) {
+            if (mv) *obj[t] = std::move(src);
+            else *obj[t] = std::as_const(src);
+        } else {
+            obj[t]->~T();
+            if (mv) new (obj[t].buf) T(std::move(src));
+            else new (obj[t].buf) T(std::as_const(src));
+        }
+    }
     std::string step(Line const& l) override
     {
         int const t = static_cast<int>(l.i("t", 0));
@@ -1082,6 +1159,17 @@ struct FnSession final : Session {
         auto& A     = abs[t];
         auto& B     = abs[o];
         auto const& op = l.op;
+        if (op == "fconv_cc" || op == "fconv_mc" || op == "fconv_ca" || op == "fconv_ma") {
+            int const j = static_cast<int>(l.i("j"));
+            int const v = static_cast<int>(l.i("v"));
+            bool const mv  = op[6] == 'm';
+            bool const asg = op[7] == 'a';
+            if (j == 0) from_other_capacity<F0>(t, asg, mv, v);
+            else if (j == 1) from_other_capacity<F1>(t, asg, mv, v);
+            else return "";
+            set_abs(A, j, v);
+            return line();
+        }
         if (op == "fctor_c" || op == "fctor_m" || op == "fassign_c" || op == "fassign_m") {
             int const j = static_cast<int>(l.i("j"));
             int const v = static_cast<int>(l.i("v"));
